@@ -48,6 +48,7 @@ class Config:
         self.canon_arg = canon_arg
         self.ret_summary = ret_summary  # callable(FuncInfo, result Val) -> Val
         self.str_domains = str_domains or {}
+        self.lenient = False  # True: an expression that cannot be normalised becomes an opaque fresh value (control-flow analyses)
 
 
 class Event:
